@@ -171,7 +171,7 @@ def build(tier, seed):
     def generators():
         L = circ_m.Layer()
         b = L.builtin
-        gen = src.shadow_load(GEN, {"np": trig.NUMPY, "I": b.I, "Circuit": L.Circuit, "GatePrototype": object, "Gate": object, "warn": (lambda *a, **k: None)})
+        gen = src.shadow_load(GEN, {"np": trig.NUMPY, "I": b.I, "Circuit": L.Circuit, "GatePrototype": object, "Gate": object, "warn": (lambda *a, **k: None)}, rebind=L.shadows())
         rows = lambda n, k: [tuple(trig.Poly.var(f"r{i}_{j}") for j in range(k)) for i in range(n)]
         # layers: one gate per qubit 0..n-1, i-th row on qubit i
         for n in (1, 3, 5):
